@@ -496,6 +496,9 @@ func (w *World) buildCRL(cp *CertPlan, src *CRLSrc, plan *CRLPlan, isDelta bool,
 		s.SignerKey = w.Unrelated
 	}
 	if isDelta {
+		if plan.EarlyThis {
+			s.ThisUpdate = now.Add(-3 * time.Hour)
+		}
 		s.Number = src.BaseNum + plan.NumOff
 		switch plan.IndKind {
 		case 0:
